@@ -54,6 +54,7 @@ type probe struct {
 	data  []byte
 	close bool
 	times int // how often the probe is repeated from the same source (default 1)
+	pause bool // let 50 ms of virtual time pass before this probe is sent
 }
 
 func filler(kind, n int) []byte {
@@ -95,8 +96,17 @@ type result struct {
 }
 
 func exec(udp bool, unitName string, mk func(unix int64, seen []byte) []probe, chunk, chunkSize int, total *int, ctl *explore.Ctl) explore.Result {
+	return execN(udp, unitName, 0, func(unix int64, seen [][]byte) []probe { return mk(unix, seen[0]) }, chunk, chunkSize, total, ctl)
+}
+
+// execN: extra further genuine sessions (each on its own connection) are opened and recorded
+// before the probes are built; seen[0] is the first genuine session's first segment.
+func execN(udp bool, unitName string, extra int, mk func(unix int64, seen [][]byte) []probe, chunk, chunkSize int, total *int, ctl *explore.Ctl) explore.Result {
 	v := &xfer.Verdict{Prop: "C05"}
 	cfg := world.Config{UDP: udp, MTU: 1400, Users: users, Seed: 7, Horizon: 300 * time.Second, MaxSteps: 6_000_000}
+	if extra > 0 {
+		cfg.Mux = appctlpb.MultiplexingLevel_MULTIPLEXING_OFF
+	}
 	accepted := 0
 	genuineOK := 0
 	nprobes := 0
@@ -149,22 +159,30 @@ func exec(udp bool, unitName string, mk func(unix int64, seen []byte) []probe, c
 			c.Close()
 		}
 		genuine(1000)
-		// what the genuine client put on the wire first (already seen by the server)
-		var seen []byte
+		for k := 0; k < extra; k++ {
+			genuine(2000 + k)
+			genuineOK--
+		}
+		// what the genuine client put on the wire first on each connection (already seen by the server)
+		var seen [][]byte
 		if udp {
+			first := map[string]bool{}
 			for _, d := range w.Net.Dgrams {
-				if d.Node == "client" {
-					seen = d.B
-					break
+				if d.Node == "client" && !first[d.From.String()] {
+					first[d.From.String()] = true
+					seen = append(seen, d.B)
 				}
 			}
 		} else {
 			for _, t := range w.Net.Streams {
 				if t.Dir == "c2s" && len(t.Writes) > 0 {
-					seen = t.Data[:t.Writes[0]]
-					break
+					seen = append(seen, t.Data[:t.Writes[0]])
 				}
 			}
+		}
+		if len(seen) < 1+extra {
+			v.Add("setup", "%d genuine sessions were opened but only %d first segments were recorded", 1+extra, len(seen))
+			return
 		}
 		unix := w.S.Epoch.Unix() + w.S.NowNS()/1e9
 		probes := mk(unix, seen)
@@ -183,6 +201,9 @@ func exec(udp bool, unitName string, mk func(unix int64, seen []byte) []probe, c
 		bg.Go("genuine-2", "client", func() { genuine(1001) })
 		for i, p := range probes {
 			ip := net.IPv4(10, 66, byte(i>>8), byte(i))
+			if p.pause {
+				vsched.Sleep(50 * time.Millisecond)
+			}
 			times := p.times
 			if times == 0 {
 				times = 1
@@ -217,7 +238,7 @@ func exec(udp bool, unitName string, mk func(unix int64, seen []byte) []probe, c
 		bg.Wait()
 		// if the server already answered a probe there is no point in waiting out the drain timeouts
 		vsched.Sleep(2 * time.Second)
-		early := accepted > 2
+		early := accepted > 2+extra
 		for _, d := range w.Net.Dgrams {
 			if d.Node != "adversary" && d.To.IP.To4() != nil && d.To.IP.To4()[0] == 10 && d.To.IP.To4()[1] == 66 {
 				early = true
@@ -265,7 +286,7 @@ func exec(udp bool, unitName string, mk func(unix int64, seen []byte) []probe, c
 			}
 		}
 	}
-	if accepted > 3 || (accepted > 2 && genuineOK == 3 && ex.EndNS < int64(100*time.Second)) {
+	if accepted > 3+extra || (accepted > 2+extra && genuineOK == 3 && ex.EndNS < int64(100*time.Second)) {
 		v.Add("session-created", "the server application accepted %d connections although only genuine ones should exist (%d probes were sent)", accepted, nprobes)
 	}
 	if ex.Outcome.Aborted && len(v.Viol) == 0 {
@@ -355,6 +376,83 @@ func units(tier string) []runner.Unit {
 			ps = append(ps, probe{name: "the seen first segment verbatim, three times", data: seen, times: 3})
 			return ps
 		})
+		// two probes derived from one seen first segment: the first must not make the server forget
+		// the original, so that the second (the original itself, or with its padding altered) passes
+		{
+			us = append(us, runner.Unit{Name: t + "-seen-genuine-pairs", Cost: 6, Run: func(u *runner.U) {
+				const per = 48 // genuine sessions (= probe pairs) per execution
+				total := 1
+				npairs := 0
+				for chunk := 0; chunk*per < total; chunk++ {
+					chunk := chunk
+					u.Explore(explore.Bound{}, fmt.Sprintf("%s pairs chunk %d", t, chunk), func(ctl *explore.Ctl) explore.Result {
+						var n int
+						return execN(udp, "pairs", per, func(unix int64, seen [][]byte) []probe {
+							g0 := seen[0]
+							// first probes: one flipped bit in every byte (every bit in the thorough tier), and every 8th prefix
+							type mut struct {
+								name string
+								f    func(g []byte) []byte
+							}
+							var muts []mut
+							step := 8
+							if tier == "thorough" {
+								step = 1
+							}
+							for bit := 0; bit < len(g0)*8; bit += step {
+								b := bit + (bit/8)%8*(step/8)
+								muts = append(muts, mut{fmt.Sprintf("bit %d flipped", b), func(g []byte) []byte {
+									m := append([]byte(nil), g...)
+									if b/8 < len(m) {
+										m[b/8] ^= 1 << uint(b%8)
+									}
+									return m
+								}})
+							}
+							for l := 0; l < len(g0); l += 8 {
+								l := l
+								muts = append(muts, mut{fmt.Sprintf("prefix of %d bytes", l), func(g []byte) []byte {
+									if l > len(g) {
+										return g
+									}
+									return g[:l]
+								}})
+							}
+							total = len(muts)
+							lo, hi := chunk*per, (chunk+1)*per
+							if hi > len(muts) {
+								hi = len(muts)
+							}
+							var first, second []probe
+							for i := lo; i < hi; i++ {
+								g := seen[1+i-lo]
+								first = append(first, probe{name: "first of a pair: a seen first segment with " + muts[i].name, data: muts[i].f(g)})
+								tail := append([]byte(nil), g...)
+								tail[len(tail)-1] ^= 0x10
+								second = append(second,
+									probe{name: "second of a pair (after " + muts[i].name + "): the seen first segment verbatim", data: g},
+									probe{name: "second of a pair (after " + muts[i].name + "): the seen first segment with its last byte altered", data: tail})
+							}
+							second[0].pause = true
+							n = len(first)
+							return append(first, second...)
+						}, 0, 1<<30, &n, ctl)
+					})
+					npairs += per
+					if npairs > total {
+						npairs = total
+					}
+					if u.Expired() {
+						u.NotExhaustive("budget")
+						break
+					}
+				}
+				u.Eval(int64(npairs))
+				u.DistinctN(int64(npairs))
+				u.Count("probes", int64(3*npairs))
+				u.Sample("pairs (first, second) derived from one genuine first segment the server has seen, each pair from its own genuine session: first in {one flipped bit per byte, every 8th prefix}, then 50 ms later second in {verbatim, last byte altered}")
+			}})
+		}
 		// derived from a genuine first segment the server never received (reference encoder with a registered credential)
 		for vi, variant := range []struct {
 			payload int
@@ -430,5 +528,6 @@ func units(tier string) []runner.Unit {
 			return ps
 		})
 	}
+	us = append(us, retiredUnits(tier)...)
 	return us
 }
